@@ -1,6 +1,6 @@
 (* Props/Properties_C17.v -- C17: index swaps are pure relabelings. *)
 From Coq Require Import ZArith List Arith.
-From OVM Require Import Base.ListX Kernel.State Kernel.Ops Kernel.SwapEffects Kernel.SwapInvol Kernel.Sizes.
+From OVM Require Import Base.ListX Kernel.State Kernel.Ops Kernel.SwapEffects Kernel.SwapInvol Kernel.Sizes Kernel.SwapCellCache.
 Import ListNotations.
 
 Theorem C17_swapping_a_handle_with_itself_is_a_noop : forall a s,
@@ -74,6 +74,21 @@ Proof.
   - intros. apply swap_vertex_scan_involutive; assumption.
 Qed.
 Print Assumptions C17_swap_twice_restores_the_exact_state_scan.
+
+(* cells, EVERY mode (face incidences on or off, deferred-deleted cells present, a live cell sitting on the halffaces of a deleted one):
+   the incident-cell cache after the swap is exactly the relabeled cache, and swapping twice restores the exact state, in every
+   reachable state whose cache entries for the two cells are sound.  (The unrepaired code refuted this: defect D16, fixed in /repo.) *)
+Theorem C17_swap_cell_relabels_the_incidence_cache_in_every_mode : forall a b s, a <> b -> fbu s = true ->
+  cell_entries_sound s a -> cell_entries_sound s b ->
+  inc_cell (swap_cell_indices a b s) = map (option_map (swap_idx a b)) (inc_cell s).
+Proof. exact swap_cell_cache_relabeled. Qed.
+Print Assumptions C17_swap_cell_relabels_the_incidence_cache_in_every_mode.
+
+Theorem C17_swap_cell_twice_restores_the_exact_state_in_every_mode : forall ops a b, let s := run ops in
+  a < nc s -> b < nc s -> (fbu s = true -> cell_entries_sound s a /\ cell_entries_sound s b) ->
+  swap_cell_indices a b (swap_cell_indices a b s) = s.
+Proof. intros ops a b s Ha Hb S. exact (swap_cell_involutive_every_mode a b s (sized_reachable ops) Ha Hb S). Qed.
+Print Assumptions C17_swap_cell_twice_restores_the_exact_state_in_every_mode.
 
 (* FULL STATEMENT (not provable of the faithful model, see _refuted below):
      forall reachable s, a b in range:  swap_k a b s = relabel k (transposition a b) s   in every mode.
